@@ -175,6 +175,11 @@ class Modes(np.ndarray):
         self._metadata = copy.deepcopy(state[-1])
         super(Modes, self).__setstate__(state[:-1])
 
+    def __deepcopy__(self, memo):
+        result = super(Modes, self).__deepcopy__(memo)
+        result._metadata = copy.deepcopy(self._metadata, memo)
+        return result
+
     @property
     def ndarray(self):
         """View this array as a numpy ndarray"""
